@@ -23,4 +23,23 @@ def nvT1 : Re := .cat (.alt nvG1 .eps) nvT2
 def nvra : Re := .cat .bol nvT1
 def nvraGroups : List (String × Nat) := [("name", 2), ("epoch", 4), ("version", 5), ("release", 6), ("arch", 7)]
 
+/-! `.*(?P<date>\d{8})(?P<type>\.[a-z]+)?(\.(?P<respin>\d+))?.*` -/
+def lowerCls : Cls := { ranges := [(97, 122)], neg := false }
+def digits8 : Re := Re.rep 8 (.cls digitCls)
+def dtDate : Re := .grp 1 digits8
+def dtTypeIn : Re := .cat (Re.lit '.') (.cat (.cls lowerCls) (.star (.cls lowerCls)))
+def dtType : Re := .grp 2 dtTypeIn
+def dtNum : Re := .grp 4 (.cat (.cls digitCls) (.star (.cls digitCls)))
+def dtRespin : Re := .grp 3 (.cat (Re.lit '.') dtNum)
+def dtT3 : Re := .cat (.alt dtRespin .eps) anyStar
+def dtT2 : Re := .cat (.alt dtType .eps) dtT3
+def dtT1 : Re := .cat dtDate dtT2
+def dtr : Re := .cat anyStar dtT1
+def dtrGroups : List (String × Nat) := [("date", 1), ("type", 2), ("respin", 4)]
+
+/-- the suffix spellings the documentation lists, with the compose type each stands for (no suffix = production) -/
+def documentedSuffixes : List (Str × Str) :=
+  [("n".toList, "nightly".toList), ("nightly".toList, "nightly".toList), ("t".toList, "test".toList),
+   ("test".toList, "test".toList), ("ci".toList, "ci".toList), ("d".toList, "development".toList)]
+
 end PM.Spec
